@@ -90,7 +90,14 @@ def gen_case(rng):
     ivals = [rng.choice(pool + [(1 << m[2]) - 1, 1 << (m[2] - 1)] if m[0] == 'bf' else pool) for m in nm]
     npos = rng.randint(1, len(nm))
     des = rng.sample(range(len(nm)), rng.randint(1, len(nm)))
-    return dict(type=t, width=w, members=mem, vals=vals, fills=fills, seeds=seeds, forms=forms, ivals=ivals, npos=npos, des=des)
+    # a sequence of dependent stores / loads of the target and one other member through a pointer
+    others = [i for i, m in enumerate(nm) if not (m[0] == 'bf' and m[3] == 'f')]
+    bfo = [i for i in others if nm[i][0] == 'bf']
+    seq = None
+    if others:
+        seq = (rng.choice(bfo) if bfo and rng.random() < 0.8 else rng.choice(others), rng.choice(pool), rng.choice(pool))
+    return dict(type=t, width=w, members=mem, vals=vals, fills=fills, seeds=seeds, forms=forms, ivals=ivals, npos=npos, des=des,
+                seq=seq)
 
 
 def struct_text(k, c):
@@ -137,6 +144,10 @@ def probe_unit(cases):
         des = '{ %s }' % ', '.join('.%s = %s' % (mname(nm[i]), lit(c['ivals'][i])) for i in c['des'])
         if 'static' in c.get('iforms', ('static', 'auto')):
             s.append('static struct S%d sp%d = %s;\nstatic struct S%d sd%d = %s;' % (k, k, pos, k, k, des))
+        if c.get('seq'):
+            mn = mname(nm[c['seq'][0]])
+            s.append('static void seq%d (struct S%d *p, long long a, long long b) {\n  p->f = a; p->%s = b; p->f = (u64) p->f + 1u; '
+                     'p->%s = (u64) p->%s + 3u; p->f = (u64) p->f + (u64) p->%s;\n}' % (k, k, mn, mn, mn, mn))
         s.append('static void t%d (void) {' % k)
         s.append('  union U%d u; int n = (int) sizeof u.b; long long r;' % k)
         for mi, m in enumerate(named(c)):
@@ -159,6 +170,9 @@ def probe_unit(cases):
         if 'static' in c.get('iforms', ('static', 'auto')):
             s.append('  dump ("I", %d, 0, 0, 0, (const unsigned char *) &sp%d, n);' % (k, k))
             s.append('  dump ("I", %d, 1, 0, 0, (const unsigned char *) &sd%d, n);' % (k, k))
+        if c.get('seq'):
+            s.append('  for (int i = 0; i < n; i++) u.b[i] = 0xa5;')
+            s.append('  seq%d (&u.s, %s, %s); dump ("I", %d, 4, 0, 0, u.b, n);' % (k, lit(c['seq'][1]), lit(c['seq'][2]), k))
         s.append('  { struct S%d ap = %s; dump ("I", %d, 2, 0, 0, (const unsigned char *) &ap, n); }' % (k, pos, k))
         s.append('  { struct S%d ad = %s; dump ("I", %d, 3, 0, 0, (const unsigned char *) &ad, n); }' % (k, des, k))
         s.append('}')
@@ -199,7 +213,8 @@ def parse_out(out):
 
 
 INIT_FORMS = ['static object, positional initialiser', 'static object, designated initialiser',
-              'automatic object, positional initialiser', 'automatic object, designated initialiser']
+              'automatic object, positional initialiser', 'automatic object, designated initialiser',
+              'dependent stores and loads of two members through a pointer']
 
 
 def member_extents(c, k, N):
@@ -230,6 +245,43 @@ def init_expect(c, ext, form):
         A, w = ext[i]
         v = c['ivals'][i]
         bits = (1 if v != 0 else 0) if (nm[i][0] == 'bf' and TYPES[nm[i][1]][4]) else v % (1 << w)
+        M = (M & ~(((1 << w) - 1) << A)) | (bits << A)
+    return M
+
+
+MEMBER_SIGNED = {'char': True, 'short': True, 'int': True, 'unsigned char': False, 'long': True}
+
+
+def seq_expect(c, ext, size):
+    """named bits after seq (object pre-filled with a5): p->f = a; p->m = b; p->f = (u64) p->f + 1; p->m = (u64) p->m + 3;
+    p->f = (u64) p->f + (u64) p->m   (reads sign- or zero-extend, stores reduce modulo 2^width, _Bool stores != 0)"""
+    nm = named(c)
+    mi, a, b = c['seq']
+    fi = [i for i, m in enumerate(nm) if m[0] == 'bf' and m[3] == 'f'][0]
+
+    def props(i):
+        m = nm[i]
+        if m[0] == 'bf':
+            return TYPES[m[1]][3], TYPES[m[1]][4]
+        return MEMBER_SIGNED[m[1]], False
+
+    def conv(i, v):
+        sg, isb = props(i)
+        w = ext[i][1]
+        return (1 if v % (1 << 64) != 0 else 0) if isb else v % (1 << w)
+
+    def rd(i, bits):
+        sg, isb = props(i)
+        w = ext[i][1]
+        return bits - (1 << w) if sg and bits >> (w - 1) else bits
+    f = conv(fi, a)
+    m = conv(mi, b)
+    f = conv(fi, rd(fi, f) + 1)
+    m = conv(mi, rd(mi, m) + 3)
+    f = conv(fi, rd(fi, f) + rd(mi, m))
+    M = int.from_bytes(bytes([0xa5] * size), 'little')
+    for i, bits in ((fi, f), (mi, m)):
+        A, w = ext[i]
         M = (M & ~(((1 << w) - 1) << A)) | (bits << A)
     return M
 
